@@ -132,6 +132,8 @@ def child_history(workdir, spec):
             elif pre == "binding-energies":
                 from naunet.chemistrydata import update_binding_energy
                 update_binding_energy({"#CO": 777.0})
+            elif pre == "edit-after-render":
+                pass        # handled below: the target network itself is rendered, edited and rendered again
             elif pre == "failed-krome":
                 p = os.path.join(d, "bad.krome")
                 open(p, "w").write("\n".join(KROME_A[:3] + ["1,H,Qx,H2,NONE,NONE,1.0"]) + "\n")
@@ -148,10 +150,22 @@ def child_history(workdir, spec):
         kw = {}
         if spec.get("elements") is not None:
             kw["elements"], kw["pseudo_elements"] = list(spec["elements"]), list(spec["pseudo"])
+        late = list(spec.get("late_required", []))
+        edit = "edit-after-render" in spec.get("prelude", [])
+        if late and not edit:
+            kw["required_species"] = late
         n = Network(filelist=[os.path.join(workdir, f) for f in spec["files"]], fileformats=list(spec["formats"]),
                     grain_model=spec.get("grain_model", ""), **kw)
         solver, device, method = spec["solver"]
         from naunet.templateloader import TemplateLoader
+        if edit:
+            # the same description reached through an edit of the network object after it was rendered once
+            scratch = tempfile.mkdtemp(prefix="vf_pre_render_")
+            try:
+                quiet(TemplateLoader(solver=solver, method=method, device=device).render, "vfproj", n, path=Path(scratch))
+            finally:
+                shutil.rmtree(scratch, ignore_errors=True)
+            n.required_species = late
         quiet(TemplateLoader(solver=solver, method=method, device=device).render, "vfproj", n, path=Path(out))
 
 
@@ -256,7 +270,7 @@ def oracle_c20(tier, seed):
 
 
 C17_SPECS = {
-    "kida": dict(files={"net.kida": KIDA_LINES}, formats=["kida"], elements=None, pseudo=None, solver=("cvode", "cpu", "sparse")),
+    "kida": dict(files={"net.kida": KIDA_LINES}, formats=["kida"], elements=None, pseudo=None, solver=("cvode", "cpu", "sparse"), late_required=["C2H", "CH2"]),
     "krome": dict(files={"net.krome": KROME_B}, formats=["krome"], elements=None, pseudo=None, solver=("cvode", "cpu", "dense")),
     "uclchem": dict(files={"net.ucl": UCL_LINES}, formats=["uclchem"], elements=["H", "C", "O", "Cl", "E"], pseudo=["CRP", "PHOTON"],
                     grain_model="rr07x", solver=("odeint", "cpu", "rosenbrock4")),
@@ -267,7 +281,7 @@ C17_SPECS["uclchem"]["files"] = {"net.ucl": [l.replace("HCL", "HCl").replace(",C
 def oracle_c17(tier, seed):
     viol, cases = [], 0
     seeds = ["0", "1", "7"] if tier == "quick" else ["0", "1", "2", "3", "7", "11", "42", "1234"]
-    preludes = [[], ["custom-elements"], ["krome-directives"], ["binding-energies"], ["failed-krome", "krome-directives"], ["failed-krome"]]
+    preludes = [[], ["custom-elements"], ["krome-directives"], ["binding-energies"], ["failed-krome", "krome-directives"], ["failed-krome"], ["edit-after-render"]]
     for label, base in C17_SPECS.items():
         ref = None
         for hs in seeds:
@@ -298,7 +312,7 @@ def oracle_c17(tier, seed):
                 finally:
                     shutil.rmtree(tmp, ignore_errors=True)
     return {"cases": cases, "distinct": cases, "violations": viol, "samples": [{"seeds": seeds, "preludes": preludes}],
-            "bound": f"3 networks x {len(seeds)} hash seeds, plus 5 preludes (other network with custom element lists/prefixes, KROME directives, user binding energies, a KROME file that fails half-way) and repeated rendering",
+            "bound": f"3 networks x {len(seeds)} hash seeds, plus 6 preludes (the network itself rendered once and then edited through a setter; other network with custom element lists/prefixes, KROME directives, user binding energies, a KROME file that fails half-way) and repeated rendering",
             "rule": "each (network, seed, prelude) rendering in a fresh interpreter is one case; sha256 of include/ src/ python/"}
 
 
